@@ -747,7 +747,7 @@ fn run(ctx: &mut Ctx) {
     // (3) random: 2-6 definitions of EACH kind (keys repeat: the pools hold 2-4 values per key),
     // interleaved with 0-6 body instructions, cut at 1-3 random places
     let mut rng = ctx.rng(8);
-    let n = if ctx.quick() { 2_500 } else { 60_000 };
+    let n = if ctx.quick() { 2_000 } else { 40_000 };
     let mut rnd = 0u64;
     for _ in 0..n {
         let mut is: Vec<Instruction> = Vec::new();
@@ -791,7 +791,7 @@ fn run(ctx: &mut Ctx) {
     // every kind; each derivation repeated 5 times in-process on freshly built operands and (for a third of
     // the cases in quick, all in thorough) once in the child process
     let mut rng = ctx.rng(18);
-    let bases = if ctx.quick() { 60 } else { 1_500 };
+    let bases = if ctx.quick() { 40 } else { 500 };
     let mut dn = 0u64;
     for b in 0..bases {
         let pis = derived_base(&mut rng, "");
